@@ -23,6 +23,10 @@ def split_top(s, sep=','):
                 in_str = False
         elif c == '"':
             in_str = True; cur += c
+        elif c == "'" and i + 2 < len(s) and s[i+2] == "'":
+            cur += s[i:i+3]; i += 2
+        elif c == "'" and i + 3 < len(s) and s[i+1] == '\\' and s[i+3] == "'":
+            cur += s[i:i+4]; i += 3
         elif c in '([{<':
             depth += 1; cur += c
         elif c in ')]}>' and not (c == '>' and cur.endswith('-')):
@@ -44,7 +48,7 @@ def load(path):
     while i < len(lines):
         l = lines[i]
         m = FN_RE.match(l)
-        mc = CONST_RE.match(l) if not m else None
+        mc = (CONST_RE.match(l) or re.match(r'^(?:const|static) (\S+): (.+) = \{$', l)) if not m else None
         if (m or mc) and not l.startswith(' '):
             name, args, ret = (m.group(1), m.group(2), m.group(3)) if m else (mc.group(1), '', mc.group(2))
             arg_list = split_top(args) if args.strip() else []
